@@ -94,3 +94,53 @@ Proof.
       rewrite andb_true_r; apply Z.testbit_false; [lia|exact Hd]. }
     rewrite E at 1. rewrite Z.lxor_assoc, Z.lxor_nilpotent, Z.lxor_0_r. reflexivity.
 Qed.
+
+(* ---- bounds ---- *)
+Lemma land_le a b : 0 <= a -> Z.land a b <= a.
+Proof.
+  intros Ha.
+  assert (D : Z.land (Z.ldiff a b) (Z.land a b) = 0).
+  { apply Z.bits_inj'; intros i Hi. rewrite !Z.land_spec, Z.ldiff_spec, Z.bits_0.
+    destruct (Z.testbit a i), (Z.testbit b i); reflexivity. }
+  pose proof (Z.lor_ldiff_and a b) as E.
+  rewrite <- (Z.lxor_lor _ _ D), <- (Z.add_nocarry_lxor _ _ D) in E.
+  assert (0 <= Z.ldiff a b) by (apply Z.ldiff_nonneg; left; exact Ha).
+  lia.
+Qed.
+
+Lemma lor_lt_pow2 a b n : 0 <= n -> 0 <= a < 2 ^ n -> 0 <= b < 2 ^ n -> 0 <= Z.lor a b < 2 ^ n.
+Proof.
+  intros Hn Ha Hb. split; [apply Z.lor_nonneg; lia|].
+  destruct (Z.eq_dec (Z.lor a b) 0) as [->|Hne]; [lia|].
+  assert (0 < Z.lor a b) by (assert (0 <= Z.lor a b) by (apply Z.lor_nonneg; lia); lia).
+  assert (Hn0 : 0 < n).
+  { destruct (Z.eq_dec n 0) as [->|]; [|lia]. change (2 ^ 0) with 1 in *.
+    assert (a = 0) by lia. assert (b = 0) by lia. subst. discriminate Hne || (exfalso; apply Hne; reflexivity). }
+  apply Z.log2_lt_pow2; [assumption|].
+  rewrite Z.log2_lor by lia.
+  apply Z.max_lub_lt.
+  - destruct (Z.eq_dec a 0) as [->|]; [simpl; lia|]. apply Z.log2_lt_pow2; lia.
+  - destruct (Z.eq_dec b 0) as [->|]; [simpl; lia|]. apply Z.log2_lt_pow2; lia.
+Qed.
+
+Lemma land_small_pow2 x k n : 0 <= x < 2 ^ k -> 0 <= k <= n -> Z.land x (2 ^ n) = 0.
+Proof.
+  intros Hx Hk. apply Z.bits_inj'; intros i Hi. rewrite Z.land_spec, Z.bits_0, Z.pow2_bits_eqb by lia.
+  destruct (Z.eqb_spec n i) as [<-|]; [|apply andb_false_r].
+  rewrite andb_true_r. destruct (Z.eq_dec x 0) as [->|]; [apply Z.bits_0|].
+  apply Z.bits_above_log2; [lia|]. apply Z.log2_lt_pow2; [lia|].
+  apply Z.lt_le_trans with (2 ^ k); [lia|]. apply Z.pow_le_mono_r; lia.
+Qed.
+
+(* adding / or-ing a low bit does not change the part of the word above position k *)
+Lemma lor_low_keeps_high a m k : 0 <= k -> 0 <= m < 2 ^ k -> Z.lor a m / 2 ^ k = a / 2 ^ k.
+Proof.
+  intros Hk Hm. rewrite <- !Z.shiftr_div_pow2 by lia. rewrite Z.shiftr_lor.
+  rewrite (Z.shiftr_div_pow2 m) by lia. rewrite (Z.div_small m) by lia. apply Z.lor_0_r.
+Qed.
+
+(* and-ing with a mask that keeps every bit from position k upwards keeps the high part *)
+Lemma land_keeps_high a m k : 0 <= k -> m / 2 ^ k = -1 -> Z.land a m / 2 ^ k = a / 2 ^ k.
+Proof.
+  intros Hk Hm. rewrite <- !Z.shiftr_div_pow2 in * by lia. rewrite Z.shiftr_land, Hm. apply Z.land_m1_r.
+Qed.
